@@ -3,6 +3,25 @@ what counts as a non-trivial case, the theorems, and the classifier that turns a
 into a signature for known_findings.json."""
 
 PROPS = {
+    'C19': {
+        'engines': [('coord2', 600, 12000, ['-shardsize', '100'])],
+        'rule': 'two replicas A,B from the coord generator sharing options, discovery and explorer results (explorer objects never scraped: '
+                'times 0, normal state); 1/6 of the cases A fails to list its shards; A also fails its early scale request, is unready, or '
+                'holds a different placement of the same targets by construction of the generator. The real Coordinator runs B alone and '
+                '[A,B] in one run; B\'s and A\'s shards\' request logs, POST bodies and scale requests are compared with the model under all '
+                'schedules; the property monitor demands equality of B-alone and B-with-A whenever the model says B is confluent. '
+                'non-trivial = B sent a target POST or requested a different scale; distinct by input',
+        'theorems': 'C19_independent C19_first_is_explorer_object C19_moved_not_fresh (+ C01/C04/C05/C07/C08 per replica)',
+        'trusted_base': ['the per-replica cycle model (see C01) run once per replica; pointer sharing of explorer objects is replaced by value '
+                         'semantics, justified by C19_moved_not_fresh and validated by the two-replica differential run'],
+        'assumptions': ['explorer objects carry scrape count 0 and normal state (nothing in kvass increments them)',
+                        'the merged global view served by the coordinator API is meant to depend on all replicas and is not part of the statement'],
+        'level_text': 'Proof: run_once is a map of the one-replica cycle (independence by construction of the faithful model) plus the theorem that '
+                      'makes the per-replica value-semantics model sound (a moved copy is never a first-assigned explorer object; needs the generated '
+                      'constant min_wait = 3). The faithfulness of "map" is what the two-replica differential run checks on every run.',
+        'level_note': 'Trusted: Coq kernel; hand-written model; the independence theorem is only as strong as the model\'s faithfulness, which is '
+                      'checked differentially (two replicas in one real run), not proved.',
+    },
     'C10': {   'assumptions': [   'updates carry each hash once (what the coordinator sends; with a duplicate the outcome depends on Go map order - recorded, '
                        'not alarmed)',
                        'ops are atomic (no update concurrent with a scrape)'],
@@ -180,6 +199,8 @@ def classify(prop, engine, case):
     """signature of a failing case; must be stable and specific enough that a different violation
     of the same property gets a different signature"""
     inp = case.get('input') or {}
+    if engine == 'coord2':
+        return 'C19-coord2'
     if engine == 'coord':
         ob = case.get('observed') or {}
         n = len(inp.get('Shards') or [])
